@@ -32,92 +32,16 @@
 (* Outside: |year| > 5 000 000 (32-bit TLC), timezones beyond +-14:00,     *)
 (* FODT0001/FODT0002 overflow behaviour, xs:duration with both parts.      *)
 (***************************************************************************)
-EXTENDS Durations, FiniteSets
+EXTENDS DateOps
 
-CONSTANTS Xsd,          \* "10" | "11"
-          GridName,     \* "tiny" | "small" | "full"
+CONSTANTS GridName,     \* "tiny" | "small" | "full"   (Xsd and ImplicitTZcfg: DateOps)
           MaxOps,       \* 1: one operation per grid value, 2: chains of two
-          LawOps,       \* the full set of laws is evaluated on values with ops <= LawOps
-          ImplicitTZcfg \* the implicit timezone of the dynamic context, minutes (0 = UTC); a cfg file cannot
-                        \* hold a negative number: 10000 + m stands for -m (10030 = -00:30)
+          LawOps        \* the full set of laws is evaluated on values with ops <= LawOps
 
 VARIABLES val,      \* the value
           ops       \* number of operations applied since the literal was constructed: a literal of the
                     \* grid (ops = 0) gets every operation, a result (ops = 1) the chain subset only
 vars == <<val, ops>>
-
-NoTZ == 9999
-ImplicitTZ == IF ImplicitTZcfg >= 10000 THEN 10000 - ImplicitTZcfg ELSE ImplicitTZcfg
-Min(a, b) == IF a < b THEN a ELSE b
-
----------------------------------------------------------------------------
-(* values *)
-Val(k, ly, mo, d, h, mi, s, us, tz) ==
-  [st |-> "val", k |-> k, y |-> ly, mo |-> mo, d |-> d, h |-> h, mi |-> mi, s |-> s, us |-> us, tz |-> tz]
-Err == [st |-> "err"]
-IsVal(v) == v.st = "val"
-HasDate(v) == v.k \in {"dateTime", "date"}
-GKinds == {"gYear", "gYearMonth"}      \* only lexical -> value -> lexical (no arithmetic in F&O)
-AY(v) == Astro(Xsd, v.y)
-
-(* local wall-clock stamp; a time lives on day 0 *)
-Local(v) == IF HasDate(v) THEN LocalStamp(AY(v), v.mo, v.d, v.h, v.mi, v.s, v.us)
-            ELSE NormStamp(0, v.h * 3600 + v.mi * 60 + v.s, v.us)
-EffTZ(v) == IF v.tz = NoTZ THEN ImplicitTZ ELSE v.tz
-Utc(v)   == UtcOf(Local(v), EffTZ(v))                      \* the instant (timeOnTimeline)
-
-(* stamp -> value of kind k: the inverse of Local.  A date drops the time of day,
-   a time drops the day. *)
-FromLocal(k, st, tz) ==
-  LET c == CivilFromDays(st[1]) IN
-  IF k = "dateTime" THEN Val(k, Lex(Xsd, c[1]), c[2], c[3], st[2] \div 3600, (st[2] \div 60) % 60, st[2] % 60, st[3], tz)
-  ELSE IF k = "date" THEN Val(k, Lex(Xsd, c[1]), c[2], c[3], 0, 0, 0, 0, tz)
-  ELSE Val(k, 0, 0, 0, st[2] \div 3600, (st[2] \div 60) % 60, st[2] % 60, st[3], tz)
-
-(* lexical -> value (the constructor / fromstring): year 0 only exists in XSD 1.1, the day must
-   exist in that month of that year, 24:00:00 is the first instant of the next day *)
-ConstructV(r) ==
-  IF r.k \in GKinds
-  THEN IF ValidLexYear(Xsd, r.y) THEN [r EXCEPT !.st = "gval"] ELSE Err
-  ELSE IF r.k = "time" THEN FromLocal("time", NormStamp(0, r.h * 3600 + r.mi * 60 + r.s, r.us), r.tz)
-  ELSE IF ~ValidLexYear(Xsd, r.y) THEN Err
-  ELSE IF ~ValidCivil(<<Astro(Xsd, r.y), r.mo, r.d>>) THEN Err
-  ELSE FromLocal(r.k, LocalStamp(Astro(Xsd, r.y), r.mo, r.d, r.h, r.mi, r.s, r.us), r.tz)
-
----------------------------------------------------------------------------
-(* operations *)
-(* op:add-dayTimeDuration-to-dateTime / -date / -time: add to the local fields, keep the timezone *)
-AddDTDv(v, dur) == LET t == StampAdd(Local(v), DtdStamp(dur)) IN FromLocal(v.k, t, v.tz)
-
-(* op:add-yearMonthDuration-to-dateTime / -date (XSD 1.1 E.3.3): month index moves, day is clamped *)
-AddYMDv(v, dur) ==
-  LET t  == AY(v) * 12 + (v.mo - 1) + YmdMonths(dur)
-      ny == t \div 12
-      nm == (t % 12) + 1
-  IN [v EXCEPT !.y = Lex(Xsd, ny), !.mo = nm, !.d = Min(v.d, DaysInMonth(ny, nm))]
-
-(* op:subtract-dateTimes / -dates / -times: elapsed time between the instants *)
-DiffV(a, b) == DtdRec(StampSub(Utc(a), Utc(b)))
-
-(* op:*-less-than / -equal / -greater-than: the order of the instants *)
-CompareV(a, b) == StampCmp(Utc(a), Utc(b))
-
-(* fn:adjust-dateTime/date/time-to-timezone($v, $tz) with $tz given or () *)
-AdjustV(v, tz) ==
-  IF v.tz = NoTZ \/ tz = NoTZ THEN [v EXCEPT !.tz = tz]
-  ELSE FromLocal(v.k, StampAdd(Local(v), TzStamp(tz - v.tz)), tz)
-
-(* fn:year-from-dateTime ... fn:timezone-from-dateTime: the value's own (local) components *)
-ComponentsV(v) ==
-  [st |-> "comps", k |-> v.k, year |-> v.y, month |-> v.mo, day |-> v.d, hours |-> v.h, minutes |-> v.mi,
-   seconds |-> v.s, micros |-> v.us, tz |-> v.tz]
-(* fn:years-from-duration ...: magnitudes split by 12 / 24 / 60 / 60, the sign on every component *)
-DurComponentsV(r) ==
-  [st |-> "dcomps", k |-> r.k, neg |-> r.neg, years |-> r.m \div 12, months |-> r.m % 12, days |-> r.d,
-   hours |-> r.s \div 3600, minutes |-> (r.s \div 60) % 60, seconds |-> r.s % 60, micros |-> r.us]
-
-DurState(r) == [st |-> "dur", k |-> r.k, neg |-> r.neg, m |-> r.m, d |-> r.d, s |-> r.s, us |-> r.us]
-DurOf(v)    == [k |-> v.k, neg |-> v.neg, m |-> v.m, d |-> v.d, s |-> v.s, us |-> v.us]
 
 ---------------------------------------------------------------------------
 (* grids (negative numbers cannot be written in a cfg file) *)
@@ -133,15 +57,10 @@ FullTimes  == {<<0, 0, 0, 0>>, <<12, 30, 15, 0>>, <<23, 59, 59, 999999>>, <<24, 
 SmallTimes == {<<0, 0, 0, 0>>, <<12, 30, 15, 50000>>, <<23, 59, 59, 999999>>, <<24, 0, 0, 0>>}
 TinyTimes  == {<<0, 0, 0, 0>>, <<23, 59, 59, 999999>>}
 Times == IF GridName = "tiny" THEN TinyTimes ELSE IF GridName = "small" THEN SmallTimes ELSE FullTimes
-(* sub-hour offsets (-00:30, +00:30, -00:01) are in every grid: the sign of such an offset is only in
-   the leading '-' of the lexical form, the hours field is zero *)
-FullTZs  == {NoTZ, 0, 840, -840, 330, -570, -30, 30, -1}
 SmallTZs == {NoTZ, 0, -840, -30}
 TinyTZs  == {NoTZ, -30}
 TZs == IF GridName = "tiny" THEN TinyTZs ELSE IF GridName = "small" THEN SmallTZs ELSE FullTZs
 
-Raw(k, y, md, t, tz) ==
-  [st |-> "raw", k |-> k, y |-> y, mo |-> md[1], d |-> md[2], h |-> t[1], mi |-> t[2], s |-> t[3], us |-> t[4], tz |-> tz]
 RawValues ==
   {Raw("dateTime", y, md, t, tz) : y \in Years, md \in MonthDays, t \in Times, tz \in TZs}
   \cup {Raw("date", y, md, <<0, 0, 0, 0>>, tz) : y \in Years, md \in MonthDays, tz \in TZs}
@@ -149,8 +68,6 @@ RawValues ==
   \cup {Raw("gYear", y, <<0, 0>>, <<0, 0, 0, 0>>, tz) : y \in Years, tz \in TZs}
   \cup {Raw("gYearMonth", y, <<2, 0>>, <<0, 0, 0, 0>>, tz) : y \in Years, tz \in TZs}
 
-RawDur(k, neg, yy, mm, dd, hh, mi, ss, us) ==
-  [st |-> "rawdur", k |-> k, neg |-> neg, yy |-> yy, mm |-> mm, dd |-> dd, hh |-> hh, mi |-> mi, ss |-> ss, us |-> us]
 RawDurs == {
   RawDur("dtd", FALSE, 0, 0, 0, 0, 0, 0, 0), RawDur("dtd", FALSE, 0, 0, 0, 0, 0, 1, 0), RawDur("dtd", TRUE, 0, 0, 0, 0, 0, 1, 0),
   RawDur("dtd", FALSE, 0, 0, 1, 0, 0, 0, 0), RawDur("dtd", TRUE, 0, 0, 1, 0, 0, 0, 0), RawDur("dtd", FALSE, 0, 0, 365, 0, 0, 0, 0),
@@ -162,43 +79,6 @@ RawDurs == {
   RawDur("ymd", FALSE, 0, 12, 0, 0, 0, 0, 0), RawDur("ymd", FALSE, 1, 0, 0, 0, 0, 0, 0), RawDur("ymd", TRUE, 0, 12, 0, 0, 0, 0, 0),
   RawDur("ymd", FALSE, 1, 2, 0, 0, 0, 0, 0), RawDur("ymd", TRUE, 1, 2, 0, 0, 0, 0, 0), RawDur("ymd", FALSE, 0, 14, 0, 0, 0, 0, 0),
   RawDur("ymd", TRUE, 2, 11, 0, 0, 0, 0, 0) }
-ConstructDur(r) == DurState(DurFromLexical(r.k, r.neg, r.yy, r.mm, r.dd, r.hh, r.mi, r.ss, r.us))
-
-(* operand grids of the actions (durations as sign-magnitude records) *)
-D(neg, d, s, us) == [k |-> "dtd", neg |-> neg, m |-> 0, d |-> d, s |-> s, us |-> us]
-M(neg, m) == [k |-> "ymd", neg |-> neg, m |-> m, d |-> 0, s |-> 0, us |-> 0]
-DTDGrid == {D(FALSE, 0, 0, 0), D(FALSE, 0, 1, 0), D(TRUE, 0, 1, 0), D(FALSE, 1, 0, 0), D(TRUE, 1, 0, 0),
-            D(FALSE, 365, 0, 0), D(TRUE, 365, 0, 0), D(FALSE, 0, 0, 1), D(TRUE, 0, 0, 1)}
-YMDGrid == {M(FALSE, 0), M(FALSE, 1), M(TRUE, 1), M(FALSE, 12), M(TRUE, 12), M(FALSE, 14), M(TRUE, 14)}
-(* second operation of a chain (MaxDepth = 4): a subset *)
-ChainDTD == {D(FALSE, 0, 1, 0), D(FALSE, 1, 0, 0), D(TRUE, 365, 0, 0)}
-ChainYMD == {M(FALSE, 1), M(TRUE, 12)}
-Multipliers == {0, 2, 3}
-
-(* the second operand of Diff / Compare / AddTo: a fixed list per kind (lexical years valid in both
-   XSD versions); chosen so that normalisation to UTC crosses the year 1, year 10000 and era borders *)
-OtherRaws == <<
-  <<2000, <<2, 29>>, <<12, 30, 15, 0>>, 0>>,
-  <<1999, <<12, 31>>, <<23, 59, 59, 999999>>, NoTZ>>,
-  <<1, <<1, 1>>, <<0, 0, 0, 0>>, 840>>,
-  <<-1, <<12, 31>>, <<12, 30, 15, 0>>, -840>>,
-  <<-820, <<3, 1>>, <<0, 0, 0, 0>>, 0>>,
-  <<9999, <<12, 31>>, <<23, 59, 59, 999999>>, -840>>,
-  <<10000, <<1, 1>>, <<0, 0, 0, 0>>, -570>>,
-  <<400000, <<3, 1>>, <<12, 30, 15, 0>>, NoTZ>>,
-  <<-400001, <<12, 31>>, <<0, 0, 0, 0>>, 0>>,
-  <<2000, <<1, 1>>, <<0, 0, 0, 0>>, 840>> >>
-NOthers == Len(OtherRaws)
-OtherOf(k, i) ==
-  LET o == OtherRaws[i] IN
-  IF k = "dateTime" THEN ConstructV(Raw(k, o[1], o[2], o[3], o[4]))
-  ELSE IF k = "date" THEN ConstructV(Raw(k, o[1], o[2], <<0, 0, 0, 0>>, o[4]))
-  ELSE ConstructV(Raw(k, 0, <<0, 0>>, o[3], o[4]))
-Kinds == {"dateTime", "date", "time"}
-OthersTable == [k \in Kinds |-> [i \in 1..NOthers |-> OtherOf(k, i)]]       \* printed for the binding
-DurOthers == [k \in {"dtd", "ymd"} |->
-  IF k = "dtd" THEN <<D(FALSE, 0, 0, 0), D(FALSE, 0, 1, 0), D(TRUE, 1, 0, 0), D(FALSE, 365, 0, 0), D(FALSE, 0, 0, 1), D(FALSE, 1, 43200, 0)>>
-  ELSE <<M(FALSE, 0), M(FALSE, 1), M(TRUE, 12), M(FALSE, 14)>>]
 
 ASSUME PrintT(<<"others", OthersTable>>)
 ASSUME PrintT(<<"durothers", DurOthers>>)
@@ -233,7 +113,6 @@ AdjustImpl == /\ Step /\ More /\ IsVal(val) /\ OnGrid
 Components == /\ Step /\ More /\ IsVal(val)
               /\ val' = ComponentsV(val)
 (* duration states *)
-IsDur(v) == v.st = "dur"
 AddTo(k, i) == /\ Step /\ More /\ IsDur(val) /\ (val.k = "ymd" => k # "time")
                /\ (OnGrid \/ (i <= 4 /\ k = "dateTime")) /\ IsVal(OtherOf(k, i))
                /\ val' = IF val.k = "dtd" THEN AddDTDv(OtherOf(k, i), DurOf(val)) ELSE AddYMDv(OtherOf(k, i), DurOf(val))
@@ -255,7 +134,7 @@ Next == \/ Construct
         \/ \E r \in YMDGrid : SubYMD(r)
         \/ \E i \in 1..NOthers : Diff(i)
         \/ \E i \in 1..NOthers : Compare(i)
-        \/ \E tz \in FullTZs : AdjustTZ(tz)
+        \/ \E tz \in AdjustArgs : AdjustTZ(tz)
         \/ AdjustImpl
         \/ Components
         \/ \E k \in Kinds, i \in 1..NOthers : AddTo(k, i)
@@ -267,91 +146,6 @@ Next == \/ Construct
 Spec == Init /\ [][Next]_vars
 
 ---------------------------------------------------------------------------
-(* The laws quoted by the property.  Every reached value must be well formed and survive
-   value -> timeline offset -> value; the laws that quantify over the operand grids (about 300
-   calendar conversions per value) are evaluated on the values with ops <= LawOps. *)
-WellFormed(v) ==
-  /\ v.h \in 0..23 /\ v.mi \in 0..59 /\ v.s \in 0..59 /\ v.us \in 0..999999
-  /\ (v.tz = NoTZ \/ ValidTZ(v.tz))
-  /\ HasDate(v) => (ValidLexYear(Xsd, v.y) /\ ValidCivil(<<AY(v), v.mo, v.d>>) /\ AY(v) \in -MaxAbsYear..MaxAbsYear)
-  /\ (v.k = "date") => (v.h = 0 /\ v.mi = 0 /\ v.s = 0 /\ v.us = 0)
-
-LawRoundTrip(v) ==    \* value -> timeline offset -> value is the identity
-  /\ FromLocal(v.k, Local(v), v.tz) = v
-  /\ IsStamp(Local(v)) /\ IsStamp(Utc(v))
-
-WholeDays(r) == r.s = 0 /\ r.us = 0
-LawAddSub(v) ==       \* d + dur - dur = d  (a date only sees whole days); d2 - d1 is the true elapsed time
-  \A r \in DTDGrid : (v.k = "date" => WholeDays(r)) =>
-     /\ AddDTDv(AddDTDv(v, r), DurNeg(r)) = v
-     /\ AddDTDv(AddDTDv(v, DurNeg(r)), r) = v
-     /\ (v.k # "time") => DiffV(AddDTDv(v, r), v) = r
-
-LawDiffAdd(v) ==      \* d1 + (d2 - d1) = d2 (as instants; the result keeps d1's timezone)
-  \A i \in 1..NOthers :
-     LET o == OtherOf(v.k, i) IN
-     IsVal(o) =>
-       /\ DiffV(v, o) = DurNeg(DiffV(o, v))
-       /\ (v.k = "dateTime") =>
-            /\ Utc(AddDTDv(v, DiffV(o, v))) = Utc(o)
-            /\ AddDTDv(v, DiffV(o, v)).tz = v.tz
-       /\ (v.k = "date" /\ EffTZ(v) = EffTZ(o)) => Utc(AddDTDv(v, DiffV(o, v))) = Utc(o)
-
-LawCompare(v) ==      \* comparison = order of the instants; antisymmetric; consistent with subtraction
-  /\ CompareV(v, v) = 0
-  /\ \A i \in 1..NOthers :
-       LET o == OtherOf(v.k, i) IN
-       IsVal(o) =>
-         /\ CompareV(v, o) = -CompareV(o, v)
-         /\ CompareV(v, o) = StampSign(DtdStamp(DiffV(v, o)))
-         /\ (CompareV(v, o) = 0) <=> (Utc(v) = Utc(o))
-  /\ (v.k = "dateTime") => CompareV(AddDTDv(v, D(FALSE, 0, 0, 1)), v) = 1
-
-LawAdjust(v) ==       \* adjust-to-timezone preserves the instant / relabels a value without timezone
-  \A tz \in FullTZs :
-     LET w == AdjustV(v, tz) IN
-     /\ w.tz = tz /\ WellFormed(w)
-     /\ (v.tz # NoTZ /\ tz # NoTZ /\ v.k = "dateTime") => Utc(w) = Utc(v)
-     /\ (v.tz # NoTZ /\ tz # NoTZ /\ v.k = "time") => (Utc(w)[2] = Utc(v)[2] /\ Utc(w)[3] = Utc(v)[3])
-     /\ (v.tz = NoTZ \/ tz = NoTZ) => Local(w) = Local(v)
-     /\ (tz # NoTZ) => AdjustV(w, tz) = w
-
-LawClamp(v) ==        \* yearMonthDuration: the month index moves exactly, the day is clamped to the month length
-  HasDate(v) => \A r \in YMDGrid :
-     LET w == AddYMDv(v, r) IN
-     /\ WellFormed(w)
-     /\ (AY(w) * 12 + w.mo) - (AY(v) * 12 + v.mo) = YmdMonths(r)
-     /\ w.d = Min(v.d, DaysInMonth(AY(w), w.mo))
-     /\ <<w.h, w.mi, w.s, w.us, w.tz>> = <<v.h, v.mi, v.s, v.us, v.tz>>
-     /\ (v.mo = 1 /\ v.d = 31 /\ r = M(FALSE, 1)) => (w.mo = 2 /\ w.d = IF IsLeap(AY(v)) THEN 29 ELSE 28)
-     /\ (v.d <= 28) => AddYMDv(w, DurNeg(r)) = v
-
-LawDur(v) ==
-  LET r == DurOf(v) IN
-  /\ WellFormedDur(r)
-  /\ DurNeg(DurNeg(r)) = r
-  /\ DurTimes(r, 3) = RepeatAdd(r, 3) /\ DurTimes(r, 0) = DurSub(r, r)
-  /\ \A j \in 1..Len(DurOthers[r.k]) :
-       LET o == DurOthers[r.k][j] IN
-       /\ DurSub(DurAdd(r, o), o) = r
-       /\ DurCmp(r, o) = -DurCmp(o, r)
-       /\ (DurCmp(r, o) = 0) <=> (r = o)
-       /\ DurCmp(DurAdd(r, o), r) = DurCmp(o, DurSub(o, o))
-  /\ (r.k = "dtd") => DtdRec(DtdStamp(r)) = r
-  /\ (r.k = "ymd") => YmdRec(YmdMonths(r)) = r
-
-LawsOf(v) ==
-  /\ IsVal(v) => (WellFormed(v) /\ LawRoundTrip(v) /\ LawAddSub(v) /\ LawDiffAdd(v) /\ LawCompare(v)
-                  /\ LawAdjust(v) /\ LawClamp(v))
-  /\ IsDur(v) => LawDur(v)
-(* 24:00:00 is the first instant of the next day; a literal is rejected only for year 0 (XSD 1.0) or a
-   day that the month does not have *)
-LawConstruct(r, v) ==
-  /\ (r.st = "raw" /\ r.k \in GKinds) => ((v = Err) <=> (Xsd = "10" /\ r.y = 0))
-  /\ (r.st = "raw" /\ HasDate(r)) =>
-     /\ (v = Err) <=> (~ValidLexYear(Xsd, r.y) \/ r.d > DaysInMonth(Astro(Xsd, r.y), r.mo))
-     /\ (IsVal(v) /\ r.h = 24) => Local(v) = <<DaysFromCivil(Astro(Xsd, r.y), r.mo, r.d) + 1, 0, 0>>
-     /\ (IsVal(v) /\ r.h < 24) => <<v.y, v.mo, v.d, v.h, v.mi, v.s, v.us, v.tz>> = <<r.y, r.mo, r.d, r.h, r.mi, r.s, r.us, r.tz>>
 Laws ==                                          \* INVARIANT
   /\ ops \in 0..MaxOps
   /\ IsVal(val) => (WellFormed(val) /\ LawRoundTrip(val))
